@@ -83,12 +83,12 @@ int main(int argc, char** argv) {
             double tol2 = 2.0 * a * r0 + 2e-4 + (sinus ? 2e-3 * r0 * (1 + k * a) : 0);
             if (std::fabs(ck.w / c0.w - 1) > 1e-3) { M.ev("charge_left_grid"); stop = true; break; }   // generator fault, not judged
             bool lossless = std::fabs(ck.w / c0.w - 1) < 2e-6;    // the tight oracle presumes that no charge has reached the border
-            if (!lossless) M.ev("steps_with_charge_loss_not_judged_tightly");
+            if (!lossless) M.ev("steps_with_charge_loss_not_judged");
             if (lossless && !M.within(std::string("centroid_vs_matrix_product_over_tol.") + (sinus ? "sinus" : "linear"), e1 / tol1, 1.0)) {
                 vh::J dj; dj.s("case", ds.str()).i("step", k).n("q", ck.q).n("p", ck.p).n("want_q", mq).n("want_p", mp).n("c0_q", c0.q).n("c0_p", c0.p);
                 M.violation(std::string("C03:track:") + (sinus ? "sinus" : "linear"), "centre of charge leaves the exact kick-drift orbit", dj.str());
                 stop = true;
-            } else if (!M.within(std::string("centroid_vs_rotation_over_bound.") + (sinus ? "sinus" : "linear"), e2 / tol2, 1.0)) {
+            } else if (lossless && !M.within(std::string("centroid_vs_rotation_over_bound.") + (sinus ? "sinus" : "linear"), e2 / tol2, 1.0)) {
                 vh::J dj; dj.s("case", ds.str()).i("step", k).n("q", ck.q).n("p", ck.p).n("want_q", ex).n("want_p", ey).n("bound", tol2);
                 M.violation(std::string("C03:rotation:") + (sinus ? "sinus" : "linear"), "centre of charge deviates from the rotation by k*2pi/steps by more than the splitting error", dj.str());
                 stop = true;
